@@ -2331,7 +2331,7 @@ class EdgeQLSourceGenerator(codegen.SourceGenerator):
                     if i > 0:
                         self.write(', ')
                     self.write(f'{edgeql_quote.quote_ident(name)} := ')
-                    self.visit(arg)
+                    self._ddl_visit_value(arg)
                 self.write(')')
 
             if node.index_types:
